@@ -37,11 +37,19 @@ func makeMsg(o Op) []byte {
 	case o.Size < headerLen:
 		return []byte{byte('a' + o.ID%26)}
 	}
+	if bomRecord(o) {
+		// a TEXT message that starts with a UTF-8 byte order mark (EF BB BF): the marker 'B' says the mark belongs there
+		bd := body(o.ID, o.Size-headerLen-3)
+		h := []byte(fmt.Sprintf("\xef\xbb\xbfB%08x%08x%06x%08x%08x", o.ID, o.N, o.Seq, len(bd), crc32.ChecksumIEEE(bd)))
+		return append(h, bd...)
+	}
 	bd := body(o.ID, o.Size-headerLen)
 	h := []byte(fmt.Sprintf("R%08x%08x%06x%08x%08x", o.ID, o.N, o.Seq, len(bd), crc32.ChecksumIEEE(bd)))
 	h[0] = marker(o.ID)
 	return append(h, bd...)
 }
+
+func bomRecord(o Op) bool { return o.MT == 1 && o.ID%5 == 0 && o.Size >= headerLen+3 }
 
 // every other record starts with a control byte instead of 'R': a byte outside 0x20..0x7e right at
 // the start of the message (still valid UTF-8, so fine in a text message)
@@ -96,7 +104,13 @@ func parseOpt(data []byte, stats bool) (items []item, bad string, reports int) {
 			data = data[1:]
 			continue
 		}
-		if c != 'R' && c != 0x02 {
+		if bytes.HasPrefix(data, []byte("\xef\xbb\xbfB")) {
+			data = data[3:] // the byte order mark this record was sent with
+			c = 'B'
+		} else if c == 'B' {
+			return items, "leading-byte-order-mark-stripped", reports
+		}
+		if c != 'R' && c != 0x02 && c != 'B' {
 			return items, "foreign-bytes", reports
 		}
 		if len(data) < headerLen {
@@ -114,7 +128,11 @@ func parseOpt(data []byte, stats bool) (items []item, bad string, reports int) {
 		if crc32.ChecksumIEEE(data[headerLen:headerLen+ln]) != crc {
 			return items, "crc", reports
 		}
-		items = append(items, item{ID: id, Sender: snd, Seq: seq, size: headerLen + ln})
+		sz := headerLen + ln
+		if c == 'B' {
+			sz += 3
+		}
+		items = append(items, item{ID: id, Sender: snd, Seq: seq, size: sz})
 		data = data[headerLen+ln:]
 	}
 	return items, "", reports
@@ -226,6 +244,8 @@ func runScenario(k *hubkit.Kit, c *Case, dist map[string]int) map[uint64]*peerIn
 				pi.leftAt = i
 				dist["peer:died-mid-message"]++
 			}
+		case "pause":
+			time.Sleep(80 * time.Millisecond)
 		case "stall":
 			peers[o.N].p.Stall(true)
 		case "unstall":
